@@ -24,4 +24,12 @@ def inGen (lo : Nat) (hi : Option Nat) (k : Nat) : Prop :=
     | none => True
     | some h => k < h
 
+/-- well-formed commit graph: index order is a topological order, the visible heads exist,
+there is a root commit, and the index has fewer than `2^32` commits (positions are `u32`) -/
+structure Graph.WF (g : Graph) : Prop where
+  topo : ∀ p q, q ∈ g.par p → q < p
+  heads_lt : ∀ h ∈ g.heads, h < g.size
+  size_pos : 0 < g.size
+  size_le : g.size ≤ U32MAX
+
 end JjModel.Revset
